@@ -290,6 +290,13 @@ def hand_instances():
         'secrets.SecretData': rig.secret_data(b'secret'),
         'secrets.OpaqueObject': rig.secret_opaque(b'opaque'),
     }
+    # state that has no constructor argument and is assigned by the caller: the vendor data of Server Information
+    from kmip.core import misc
+    si = misc.ServerInformation()
+    # (vendor data is itself a sequence of TTLV items: a text string and an integer under extension tags)
+    si.data = utils.BytearrayStream(b'\x54\x00\x01\x07\x00\x00\x00\x08vendor-x'
+                                    b'\x54\x00\x02\x02\x00\x00\x00\x04\x00\x00\x00\x2a\x00\x00\x00\x00')
+    out['misc.ServerInformation'] = si
     return out
 
 
